@@ -13,6 +13,7 @@ const (
 	keyBlockContext = "bc"
 	keyBlockAppHash = "ah"
 	keyRewardHash   = "rh"
+	keyValidators   = "lv"
 )
 
 type MetaDB struct {
@@ -83,6 +84,14 @@ func (stdb *MetaDB) LastRewardHash() []byte {
 
 func (stdb *MetaDB) PutLastRewardHash(v []byte) error {
 	return stdb.put(keyRewardHash, v)
+}
+
+func (stdb *MetaDB) LastValidators() []byte {
+	return stdb.get(keyValidators)
+}
+
+func (stdb *MetaDB) PutLastValidators(v []byte) error {
+	return stdb.put(keyValidators, v)
 }
 
 func (stdb *MetaDB) LastBlockContext() *BlockContext {
